@@ -601,9 +601,89 @@ def gen_details():
     return note
 
 
+PD_MACROS = {
+    "PD_INIT(_LOOP)": "const int n##_LOOP = details->pd_length[_LOOP]; const int p##_LOOP = details->pd_par[_LOOP]; "
+                      "pglobal const double *v##_LOOP = pd_value + details->pd_offset[_LOOP]; pglobal const double *w##_LOOP = pd_weight + details->pd_offset[_LOOP]; "
+                      "int i##_LOOP = (pd_start/details->pd_stride[_LOOP])%n##_LOOP;",
+    "PD_OPEN(_LOOP,_OUTER)": "while (i##_LOOP < n##_LOOP) { local_values.vector[p##_LOOP] = v##_LOOP[i##_LOOP]; const double weight##_LOOP = w##_LOOP[i##_LOOP] * weight##_OUTER;",
+    "PD_CLOSE(_LOOP)": "if (step >= pd_stop) break; ++i##_LOOP; } i##_LOOP = 0;",
+}
+
+
+def _translate_loop_nest():
+    """The skeleton of the dispersity loop nest of kernel_iq.c (fail-closed text walk): the three macro bodies, and the
+    order and the MAX_PD guards of their uses - PD_INIT / PD_OPEN from the outermost level inwards, ++step, PD_CLOSE from
+    the innermost level outwards.  Returns (init order, open order with outer level, close order)."""
+    import os
+    import re
+    from . import ctrans
+    src = ctrans.strip_comments(open(os.path.join(common.REPO, "sasmodels", "kernel_iq.c")).read())
+    for head, want in PD_MACROS.items():
+        m = re.search(r"#define\s+" + re.escape(head) + r"\s*\\\n((?:.*\\\n)*.*)\n", src)
+        if not m:
+            raise Untranslatable("macro %s not found" % head)
+        body = " ".join(m.group(1).replace("\\\n", " ").split())
+        if body != want:
+            raise Untranslatable("macro %s is now: %s" % (head, body[:160]))
+    a = src.index("#define PD_CLOSE(_LOOP)")
+    tail = src[a:]
+    uses = [(m.start(), m.group(1), [int(x) for x in m.group(2).split(",")]) for m in re.finditer(r"^\s*PD_(INIT|OPEN|CLOSE)\(([0-9, ]+)\)\s*$", tail, re.M)]
+    lines = tail.split("\n")
+    # every use is guarded by the directive "#if MAX_PD>k" on the line before and "#endif" on the line after
+
+    def line_of(start):
+        return tail.count("\n", 0, start + (len(tail[start:]) - len(tail[start:].lstrip("\n"))))
+    out = {"INIT": [], "OPEN": [], "CLOSE": []}
+    for start, kind, args in uses:
+        ln = line_of(start)
+        k = args[0]
+        if lines[ln - 1].replace(" ", "") != "#ifMAX_PD>%d" % k or not lines[ln + 1].strip().startswith("#endif"):
+            raise Untranslatable("PD_%s(%s) is not guarded by '#if MAX_PD>%d' ... '#endif' (found %r / %r)" % (kind, args, k, lines[ln - 1], lines[ln + 1]))
+        if kind == "OPEN" and args[1] != k + 1:
+            raise Untranslatable("PD_OPEN(%d,%d): the outer level is not %d" % (k, args[1], k + 1))
+        out[kind].append(k)
+    order = [kind for _, kind, _ in uses]
+    if order != ["INIT"] * len(out["INIT"]) + ["OPEN"] * len(out["OPEN"]) + ["CLOSE"] * len(out["CLOSE"]):
+        raise Untranslatable("INIT / OPEN / CLOSE uses are interleaved: %s" % order)
+    step = tail.index("++step;")
+    first_close = [s_ for s_, kd, _ in uses if kd == "CLOSE"][0]
+    last_open = [s_ for s_, kd, _ in uses if kd == "OPEN"][-1]
+    if not (last_open < step < first_close) or tail.count("++step;") != 1:
+        raise Untranslatable("++step is not once, between the innermost PD_OPEN and the first PD_CLOSE")
+    return out["INIT"], out["OPEN"], out["CLOSE"]
+
+
+def gen_loop():
+    """Regenerate Gen/C01_loop.v from the text of kernel_iq.c."""
+    import os
+    lines = ["(* GENERATED by harness/c01.py from sasmodels/kernel_iq.c (skeleton of the dispersity loop nest: macro bodies checked against their expected text, order and MAX_PD guards of PD_INIT / PD_OPEN / PD_CLOSE) *)",
+             "From Coq Require Import List.", "Import ListNotations.", ""]
+    note = None
+    try:
+        ini, opn, cls = _translate_loop_nest()
+    except (Untranslatable, OSError, ValueError, IndexError) as exc:
+        note = "%s: %s" % (type(exc).__name__, exc)
+        ini, opn, cls = [4, 3, 2, 1, 0], [4, 3, 2, 1, 0], [0, 1, 2, 3, 4]
+    nl = lambda l: "[" + "; ".join(str(x) for x in l) + "]"
+    lines.append("Definition loop_translated : bool := %s." % ("true" if note is None else "false"))
+    if note:
+        lines.append("(* not translated: %s *)" % note.replace("*)", "* )"))
+    lines += ["(* levels in the order their loop variables are initialised, their loops are opened (each inside level+1), and closed *)",
+              "Definition code_init_order : list nat := %s." % nl(ini),
+              "Definition code_open_order : list nat := %s." % nl(opn),
+              "Definition code_close_order : list nat := %s." % nl(cls), ""]
+    common.write_if_changed(os.path.join(common.THEORIES, "Gen", "C01_loop.v"), "\n".join(lines))
+    return note
+
+
+LOOP_NOTE = [None]
+
+
 def gen():
-    """Regenerate Gen/C01_code.v from the text of kernel.py (Kernel.Fq, Kernel.Iq) and Gen/C01_details.v from details.py."""
+    """Regenerate Gen/C01_code.v from the text of kernel.py (Kernel.Fq, Kernel.Iq), Gen/C01_details.v from details.py and
+    Gen/C01_loop.v from kernel_iq.c."""
     _dn = gen_details()
+    LOOP_NOTE[0] = gen_loop()
     import os
     lines = ["(* GENERATED by harness/c01.py from sasmodels/kernel.py: Kernel.Fq (normalisation of the accumulated sums) and Kernel.Iq. *)",
              "From Coq Require Import List.", "Import ListNotations.", "From SM Require Import Base.Num C01.Model.", ""]
@@ -670,6 +750,10 @@ def main(run):
         run.notes.append("kernel.py Fq/Iq not translated (%s): the source-text obligations C01_code_* are vacuous in this run, the behavioural tie decides" % note[0])
     else:
         run.notes.append("Kernel.Fq / Kernel.Iq translated from the current kernel.py (Gen/C01_code.v) and proved equal to the model for every number type (C01_code_normalisation)")
+    if LOOP_NOTE[0]:
+        run.notes.append("the loop-nest skeleton of kernel_iq.c not translated (%s): C01_code_loop_nest is vacuous in this run" % LOOP_NOTE[0])
+    else:
+        run.notes.append("the skeleton of the dispersity loop nest read from the current kernel_iq.c (Gen/C01_loop.v): macro bodies as expected, PD_INIT/PD_OPEN outermost-in, ++step, PD_CLOSE innermost-out, every use under its MAX_PD guard (C01_code_loop_nest)")
     if DETAILS_NOTE[0]:
         run.notes.append("details.make_details not translated (%s): C01_code_make_details is vacuous in this run" % DETAILS_NOTE[0])
     else:
